@@ -194,3 +194,9 @@ TOKEN._spec_table = TOKEN_TABLE
 PHASE_TOKEN._spec_table = PHASE_TOKEN_TABLE
 SPEC_FUNCS['TOKEN'] = TOKEN
 SPEC_FUNCS['PHASE_TOKEN'] = PHASE_TOKEN
+
+
+@spec('int2', 'int1', 'int', 'int', ret='int1')
+def DestabSel(gs, obs, r, N):
+    # selection of *active* stabilizers i in [r, N): those whose destabilizer partner gs[N+i] anticommutes with obs
+    return [1 if (i >= r and AcqSum(gs[N + i], obs, N) % 2 == 1) else 0 for i in range(N)]
